@@ -374,6 +374,39 @@ def check_cover_4f_rank3(perm: List[int]) -> bool:
   return cover_ok(lat, names, 3)
 
 
+def _perm_with_head(head, n):
+  return list(head) + [v for v in range(n) if v not in head]
+
+
+def check_cover_5f_rank4_head3(head: List[int]) -> bool:
+  """
+  pre: len(head) == 3 and all(0 <= v < 10 for v in head) and len(set(head)) == 3
+  post: _
+  """
+  # rank >= 4 is where a pair can join a lattice that holds neither of its members; the first three of the ten pairs are
+  # arbitrary, the rest follow in ascending order (stated bound)
+  lat, names = run_cover(5, 4, _perm_with_head(head, 10))
+  return cover_ok(lat, names, 4)
+
+
+def check_cover_5f_rank4_head2(head: List[int]) -> bool:
+  """
+  pre: len(head) == 2 and all(0 <= v < 10 for v in head) and len(set(head)) == 2
+  post: _
+  """
+  lat, names = run_cover(5, 4, _perm_with_head(head, 10))
+  return cover_ok(lat, names, 4)
+
+
+def check_cover_6f_rank5_head2(head: List[int]) -> bool:
+  """
+  pre: len(head) == 2 and all(0 <= v < 15 for v in head) and len(set(head)) == 2
+  post: _
+  """
+  lat, names = run_cover(6, 5, _perm_with_head(head, 15))
+  return cover_ok(lat, names, 5)
+
+
 # reachability twins: must be refuted (a counterexample must exist), otherwise the preconditions are vacuous
 def twin_rtl_reachable(p1: List[int], p2: List[int]) -> bool:
   """
@@ -396,6 +429,6 @@ def twin_random_reachable(ints: List[int]) -> bool:
 CHECKS_QUICK = ['check_rtl_1_2_2x2', 'check_rtl_2_1_2x2', 'check_rtl_0_3_2x2', 'check_rtl_1_1_2x2_grouped', 'check_rtl_2_1_1x3',
                 'check_rtl_groups_inc2_unc1_unc1_2x2', 'check_rtl_groups_unc2_inc1_2x2',
                 'check_random_3f_2x2', 'check_random_4f_2x2', 'check_random_3f_2x3',
-                'check_cover_3f_rank2', 'check_cover_4f_rank2', 'check_cover_4f_rank3']
-CHECKS_THOROUGH = ['check_rtl_groups_inc2_inc2_unc2_3x2', 'check_rtl_2_2_2x2', 'check_rtl_1_2_3x2', 'check_random_4f_3x2']
+                'check_cover_3f_rank2', 'check_cover_4f_rank2', 'check_cover_4f_rank3', 'check_cover_5f_rank4_head2', 'check_cover_6f_rank5_head2']
+CHECKS_THOROUGH = ['check_cover_5f_rank4_head3', 'check_rtl_groups_inc2_inc2_unc2_3x2', 'check_rtl_2_2_2x2', 'check_rtl_1_2_3x2', 'check_random_4f_3x2']
 TWINS = ['twin_rtl_reachable', 'twin_random_reachable']
